@@ -98,7 +98,9 @@ next_evmux(echs_evstrm_t strm, bool popp)
 		 * regardless of POPP we prefill without popping */
 		for (size_t j = 0UL; j < this->ns; j++) {
 			echs_evstrm_t s = this->s[j];
-			this->ev[j] = echs_evstrm_next(s);
+			/* clones of exhausted streams are NULL */
+			this->ev[j] = LIKELY(s != NULL)
+				? echs_evstrm_next(s) : nul;
 		}
 	}
 	/* best event so-far is the first non-null event */
@@ -114,7 +116,9 @@ next_evmux(echs_evstrm_t strm, bool popp)
 	if (UNLIKELY(i >= this->ns)) {
 		/* yep, bugger off free the streams and the stream array here */
 		for (size_t j = 0U; j < this->ns; j++) {
-			free_echs_evstrm(this->s[j]);
+			if (LIKELY(this->s[j] != NULL)) {
+				free_echs_evstrm(this->s[j]);
+			}
 		}
 		free(this->s);
 		this->s = NULL;
